@@ -523,7 +523,10 @@ def partial_trace(rho, keep, dims, optimize=False):
 
     # string for initial array dimensions of form "abc...ABC...", where upper/lowercase = local Hilbert space
     ssleft = "".join([string.ascii_lowercase[i] for i in range(ndim)]) + "".join(
-        [string.ascii_uppercase[i] for i in range(ndim)]
+        [
+            string.ascii_uppercase[i] if i in keep else string.ascii_lowercase[i]
+            for i in range(ndim)
+        ]
     )
 
     # string for final array dimensions is the same as initial, with upper/lowercase of dimensions to trace over omitted
